@@ -145,6 +145,8 @@ def _call_driver(cg, name, x, v, w):
 
 
 def prop_history(case, stats):
+    case = dict(case)
+    case['prog'] = list(case['prog'])       # 'extend' steps append instructions (local copy)
     pts = case['pts'][0]
     rec_in = _mk_input(case, case['rec'])
     cg, fins, regs = guard(_record, case, rec_in)
@@ -242,6 +244,19 @@ def prop_history(case, stats):
             xo = np.array(stp['x'], dtype=float) + 1.0
             go = guard(cgo.gradient, xo)
             _close(go, np.cos(xo) * xo + np.sin(xo), what + ' gradient of the second graph', stats)
+        elif kind == 'extend':
+            # the caller switches recording on again and continues the program (documented: cg.trace_on()); from now on the graph is
+            # the longer program - compared with a graph of the longer program recorded in one go
+            cg.trace_on()
+            try:
+                newreg = guard(PG.step, ['un', stp['f'], case['out']], regs)
+            finally:
+                cg.trace_off()
+            regs.append(newreg)
+            case['prog'].append(['un', stp['f'], case['out']])
+            case['out'] = len(regs) - 1
+            cg.dependentFunctionList = [newreg]
+            last_fwd = None
         elif kind == 'replay_plain':
             x = np.array(pts[stp['k']], dtype=float)
             got = guard(cg.function, [x.copy()])[0]
@@ -377,6 +392,8 @@ def history_cases(draw, tier, outkind, first=None, families=None, driver_heavy=F
     drivers = DRIVERS_SCALAR if outkind == 'scalar' else DRIVERS_VECTOR
     while len(hist) < L:
         choices = ['forward', 'forward', 'driver', 'other_graph', 'replay_plain']
+        if sum(1 for h in hist if h['step'] == 'extend') < 2 and hist:
+            choices.append('extend')
         if driver_heavy:
             # many driver calls coming back to the same (driver, point) after evaluations elsewhere
             choices = ['driver', 'driver', 'driver', 'driver', 'forward', 'replay_plain']
@@ -406,6 +423,9 @@ def history_cases(draw, tier, outkind, first=None, families=None, driver_heavy=F
             hist.append({'step': 'driver', 'name': name, 'k': kk,
                          'v': draw(gen.float_array((N,), dense, sparse=False)),
                          'w': draw(gen.float_array((M,), dense, sparse=False))})
+            last = None
+        elif k == 'extend':
+            hist.append({'step': 'extend', 'f': draw(st.sampled_from(['sin', 'cos', 'square']))})
             last = None
         elif k == 'other_graph':
             stp = {'step': 'other_graph', 'x': draw(gen.float_array((3,), dense, sparse=False)), 'mid': None}
@@ -442,6 +462,8 @@ def _hist_classes(case):
         c.add('interleaved-second-graph')
     if any(s_['step'] == 'other_graph' and s_.get('mid') for s_ in case['history']):
         c.add('evaluation-while-another-graph-records')
+    if 'extend' in h and any(x in h[:h.index('extend')] for x in ('reverse', 'driver')):
+        c.add('graph-extended-after-a-sweep')
     if any(s_.get('reuse') for s_ in case['history']):
         c.add('forward-with-same-spec-as-previous-forward')
     hist = case['history']
